@@ -199,15 +199,19 @@ pub fn generate_with(rng: &mut Rng, pp: &mut ParsedPacket, max_ops: usize, first
             }
             14 | 15 => {
                 let len = pp.packet().len();
-                let cap = match rng.below(5) {
-                    0 => len.min(8192),
-                    1 => len.saturating_sub(1).min(8192),
-                    2 => (len + 1).min(8192),
+                // any capacity is legal: the call must copy iff the packet fits the capacity the hook states
+                let cap = match rng.below(10) {
+                    0 => len,
+                    1 => len.saturating_sub(1),
+                    2 => len + 1,
                     3 => 8192,
+                    4 => *rng.pick(&[512usize, 4096, 65535, 65536, 65537, 70000, 131072, 1 << 20]),
+                    5 => 65536 + len.saturating_sub(1), // low 16 bits just below the packet length
+                    6 => 65536 * rng.range(1, 4) + rng.below(len + 2),
                     _ => rng.below(8193),
                 };
                 s.u8(9);
-                s.u16(cap as u16);
+                s.u32(cap as u32);
                 l.u8(9);
                 if len > cap {
                     l.u8(1);
@@ -429,8 +433,10 @@ fn iterate(rng: &mut Rng, pp: &mut ParsedPacket, s: &mut Buf, l: &mut Buf, ops: 
                         let n = some_text_name(rng);
                         let z = zone_choices(rng);
                         let ne = rng.chance(1, 5);
+                        // "no default zone" is (NULL, 0) or (any pointer, 0): an empty buffer's pointer is not NULL
+                        let zptr = z.is_empty() && rng.chance(1, 2);
                         s.u8(9);
-                        s.u8(ne as u8);
+                        s.u8(ne as u8 | if zptr { 0x80 } else { 0 });
                         s.u16(n.len() as u16);
                         s.raw(&n);
                         s.u16(z.len() as u16);
@@ -693,13 +699,14 @@ impl<'a> RRun<'a> {
                     self.lg_ret(ret, err, ne);
                 }
                 9 => {
-                    let ne = self.rd8() != 0;
+                    let f = self.rd8();
+                    let (ne, zptr) = (f & 0x7f != 0, f & 0x80 != 0);
                     let nlen = self.rd16() as usize;
                     let n = self.rdn(nlen).into_boxed_slice();
                     let zlen = self.rd16() as usize;
                     let z = self.rdn(zlen).into_boxed_slice();
                     let mut err: *const CErr = self.perr;
-                    let ret = (self.t.set_name)(it, if ne { std::ptr::null_mut() } else { &mut err }, n.as_ptr() as *const c_char, nlen, if zlen > 0 { z.as_ptr() } else { std::ptr::null() }, zlen);
+                    let ret = (self.t.set_name)(it, if ne { std::ptr::null_mut() } else { &mut err }, n.as_ptr() as *const c_char, nlen, if zlen > 0 || zptr { z.as_ptr() } else { std::ptr::null() }, zlen);
                     self.log.u8(0x19);
                     self.lg_ret(ret, err, ne);
                 }
@@ -839,7 +846,7 @@ pub fn rust_driver(t: &RawTable, pp: &mut ParsedPacket, script: &[u8]) -> Vec<u8
                     r.lg_ret_mode(ret, err, ne);
                 }
                 9 => {
-                    let cap = r.rd16() as usize;
+                    let cap = r.rd32() as usize;
                     let mut b = vec![0x5cu8; cap].into_boxed_slice();
                     let mut len: size_t = 0xdddd;
                     let ret = (t.raw_packet)(ppp, b.as_mut_ptr(), &mut len, cap);
